@@ -118,6 +118,13 @@ SCENARIOS = {
         query AsBase { node { ...OnNode } }
         query Unpacked { me { ...OnNode name } }
     """, {"as_base": {"AsBaseNode": ["OnNode"]}, "fragments": {"OnNode": ["BaseModel"]}}),
+    # ... in every order of the operations in the file (the bookkeeping must not depend on which use is seen first)
+    "fragment-unpacked-in-an-earlier-operation-base-in-a-later-one": ("""
+        fragment OnNode on Node { id }
+        query Unpacked { me { ...OnNode name } }
+        query AsBase { node { ...OnNode } }
+        query UnpackedAgain { me { ...OnNode } }
+    """, {"as_base": {"AsBaseNode": ["OnNode"]}, "fragments": {"OnNode": ["BaseModel"]}}),
     "fragment-inherited-only-by-a-fragment-and-unpacked-in-an-operation": ("""
         fragment B on Node { id }
         fragment A on Node { ...B }
